@@ -69,6 +69,8 @@ def run(ctx):
     rng.shuffle(uni)
     scen += [charfam.concretize(s, rng) for s in uni[: (80 if quick else 1500)]]
     files, cells, leaves = charfam.run_scenarios(ctx, scen, "c13", shards=vlib.NCPU)
+    sf, sc_, sl = charfam.run_sequences(ctx, charfam.collision_sequences(), "c13")
+    files, cells, leaves = files + sf, cells + sc_, leaves + sl
     verdicts, decided = charfam.validate(ctx, files)
     ctx.evaluations = leaves
     nt = set()
